@@ -165,6 +165,27 @@ CLAIMED["C08"] = dict(
     ref="DESIGN.md 4/C08, 10",
 )
 
+CLAIMED["C13"] = dict(
+    technique="linear-form check of the shift exponents of the unpinned subband_width/subband_height formulas (dyadic pyramid, shared with C09.e); operand-pairing check of the slices_have_same_dimensions predicate (axis, level, component kinds); pinned-ness check of the slice bound functions and slice_bytes; hidden-state and bug-pattern rules",
+    text="The partition and floor-sum identities are integer arithmetic over all sizes and are not decided; slice_left/right/top/bottom and slice_bytes are pinned to the standard's pseudocode by the repository's own test (re-confirmed each run). Decided for the unpinned code: the subband dimension formulas have the dyadic shape of the padded picture, and 'all slices have the same dimensions' is the conjunction of the four divisibility tests of the DC band of luma and colour difference, width by slices_x and height by slices_y, and is the one predicate shared by the validator's level check and the encoder.",
+    note="Thin. Trusted: the repository's equivalence test for pinned functions.",
+    ref="DESIGN.md 10.9",
+)
+
+CLAIMED["C14"] = dict(
+    technique="shape check of the first-fit search quantize_to_fit (ascending enumeration from the minimum, single exit at the first fit, measured sets = returned sets), def-use of its result into the slice constructors, pattern-matched agreement of the per-slice budget expressions with the pinned decoder's slice size expressions, rounding direction of length fields and the remainder rule of the last high-quality length",
+    text="That a given index is the smallest that fits, and byte totals, are arithmetic on runtime coefficients and are not decided. Decided necessary conditions: the search visits qindex = minimum, minimum+1, ... and returns at the first whose aligned total is <= the target, measuring the sets it returns (so the returned index is the smallest not below the minimum that fits); that index and those coefficients are what the slice stores; coefficients are quantised with max(0, qindex - matrix) as the decoder dequantises; HQ targets are 8*scaler*slice_bytes with ceil-rounded lengths and the last length taking the remainder (fields sum to the budget), the scaler is at least ceil((largest slice - 4)/255); LD targets are the decoder's bits left after the 7-bit qindex and the intlog2 length field; trailing zeros cost no bits.",
+    note="Thin. Trusted: pinned decoder expressions. Termination of the search is not decided.",
+    ref="DESIGN.md 10.9",
+)
+
+CLAIMED["C23"] = dict(
+    technique="mirror check between write_picture and read_picture (component iteration and geometry source, per-byte weights, loop coverage, exact-integer arrays); written-keys = read-keys agreement for the JSON metadata; enum re-typing table against the VideoParameters schema; must-dominance of the metadata comparisons and identity report over status 0 in compare_pictures; hidden-state and bug-pattern rules",
+    text="Equality of values after a write/read cycle and the reported pixel counts are arithmetic on runtime arrays and are not decided. Decided: reader and writer take component order and (height, width, bytes per sample) from the same function; byte k of a sample has weight 256^k on both sides and every byte is visited; exact Python integers are used; the JSON keys written are the keys read, the picture number travels as a string, every enumeration-typed video parameter is re-typed with the schema's enumeration; the comparison tool returns 0 only after video parameters, coding mode and picture number compared equal and every component's difference is zero, each mismatch kind has its own status, and main() propagates it.",
+    note="Thin. Trusted: VideoParameters schema; numpy object-dtype arithmetic.",
+    ref="DESIGN.md 10.9",
+)
+
 CLAIMED["C09"] = dict(
     technique="must/may event flow over picture_decode (ordering of inverse transform, clip, offset before the output callback; single invocation; argument wiring) and call-site placement of picture_decode in parse_sequence; completion-flag provenance",
     text="Sample ranges and dimensions come from spec-pinned arithmetic and are not decided. Decided on all paths: what reaches the output callback has been transformed, clipped and offset in that order; the callback runs at most once per decoded picture with the right arguments; the picture number is the coded one; a picture is decoded exactly once per picture data unit and once per completed fragmented picture.",
